@@ -13,7 +13,8 @@ from . import astutil as A
 _UNKNOWN = object()
 
 
-def explore(cfg, env0, funcs=None, on_node=None, max_states=20000, start=None, unknown='both', on_unknown=None, pinned=()):
+def explore(cfg, env0, funcs=None, on_node=None, max_states=20000, start=None, unknown='both', on_unknown=None, pinned=(),
+            concrete_exceptions=False, on_exception=None):
     """Explore all abstract states reachable from entry with environment `env0` (dict path -> constant).
     `on_node(node, env)` is called for every (node, env) visited; returns the set of visited node ids.
     `start`: node to start from (default entry).  `unknown`: 'both' follows both edges of a test that is not closed,
@@ -62,6 +63,26 @@ def explore(cfg, env0, funcs=None, on_node=None, max_states=20000, start=None, u
                 for s, l in nd.succ:
                     if l == 'done':
                         succs.append((s, env2))
+        elif concrete_exceptions and nd.kind in ('stmt', 'return') and _raises(nd, env, funcs) is not None:
+            # every input of this statement is closed and evaluating it raises: control goes to the handlers that catch
+            # that exception (innermost try), or leaves the function
+            exc = _raises(nd, env, funcs)
+            hs = [s_ for s_, l in nd.succ if l == 'exc' and s_.kind == 'handler']
+            for h in hs:
+                t = h.ast.type if isinstance(h.ast, ast.ExceptHandler) else None
+                names = []
+                if t is None:
+                    names = ['BaseException']
+                elif isinstance(t, ast.Tuple):
+                    names = [path_of(x) or '' for x in t.elts]
+                else:
+                    names = [path_of(t) or '']
+                mro = {c.__name__ for c in type(exc).__mro__}
+                if any(n_.split('.')[-1] in mro for n_ in names):
+                    succs.append((h, env))
+                    break
+            if on_exception is not None and not succs:
+                on_exception(nd, env, exc)
         else:
             env2 = dict(env)
             ks = kills(nd)
@@ -98,7 +119,7 @@ def explore(cfg, env0, funcs=None, on_node=None, max_states=20000, start=None, u
                 # entering a for loop: remember the iterable if it is closed (the loop head then iterates it)
                 try:
                     items = A.ev(a, env, funcs)
-                    if isinstance(items, range):
+                    if isinstance(items, (range, list)):
                         items = tuple(items)
                     if isinstance(items, (tuple, str)) and len(items) <= 200:
                         heads = [s_ for s_, _l in nd.succ if s_.kind == 'for']
@@ -133,9 +154,49 @@ def explore(cfg, env0, funcs=None, on_node=None, max_states=20000, start=None, u
             if nd.kind == 'stmt' and isinstance(a, ast.Delete) and len(a.targets) == 1 and isinstance(a.targets[0], ast.Subscript):
                 p = path_of(a.targets[0].value)
                 ix = a.targets[0].slice
-                if p and p in env and isinstance(env[p], tuple) and env[p] and p not in pinned and isinstance(ix, ast.UnaryOp) \
-                        and isinstance(ix.op, ast.USub) and A.const(ix.operand) == 1:
-                    env2[p] = env[p][:-1]
+                if p and p in env and isinstance(env[p], tuple) and p not in pinned:
+                    try:
+                        lst = list(env[p])
+                        if isinstance(ix, ast.Slice):
+                            lo = A.ev(ix.lower, env, funcs) if ix.lower is not None else None
+                            hi = A.ev(ix.upper, env, funcs) if ix.upper is not None else None
+                            del lst[lo:hi]
+                        else:
+                            del lst[A.ev(ix, env, funcs)]
+                        env2[p] = tuple(lst)
+                    except (A.NotClosed, TypeError, IndexError, ValueError):
+                        env2.pop(p, None)
+            if nd.kind == 'stmt' and isinstance(a, ast.Assign) and len(a.targets) == 1 and isinstance(a.targets[0], ast.Subscript):
+                # P[i] = v  /  P[a:b] = seq   on a closed tuple value
+                p = path_of(a.targets[0].value)
+                ix = a.targets[0].slice
+                if p and p in env and isinstance(env[p], tuple) and p not in pinned:
+                    try:
+                        lst = list(env[p])
+                        v_ = A.ev(a.value, env, funcs)
+                        if isinstance(ix, ast.Slice):
+                            lo = A.ev(ix.lower, env, funcs) if ix.lower is not None else None
+                            hi = A.ev(ix.upper, env, funcs) if ix.upper is not None else None
+                            lst[lo:hi] = list(v_)
+                        else:
+                            lst[A.ev(ix, env, funcs)] = v_
+                        env2[p] = tuple(lst)
+                        hash(env2[p])
+                    except (A.NotClosed, TypeError, IndexError, ValueError):
+                        env2.pop(p, None)
+            if nd.kind == 'stmt' and isinstance(a, ast.Expr) and isinstance(a.value, ast.Call) and isinstance(a.value.func, ast.Attribute) \
+                    and a.value.func.attr in ('remove', 'insert', 'reverse', 'clear') and not a.value.keywords:
+                # list mutators on a closed tuple value
+                p = path_of(a.value.func.value)
+                if p and p in env and isinstance(env[p], tuple) and p not in pinned:
+                    try:
+                        lst = list(env[p])
+                        args_ = [A.ev(x_, env, funcs) for x_ in a.value.args]
+                        getattr(lst, a.value.func.attr)(*args_)
+                        env2[p] = tuple(lst)
+                        hash(env2[p])
+                    except (A.NotClosed, TypeError, IndexError, ValueError):
+                        env2.pop(p, None)
             if nd.kind == 'stmt' and isinstance(a, ast.AugAssign):
                 p = path_of(a.target)
                 if p and p not in pinned and p in env:
@@ -161,6 +222,32 @@ def explore(cfg, env0, funcs=None, on_node=None, max_states=20000, start=None, u
                 seen.add(k)
                 st.append(k)
     return visited
+
+
+_PY_EXC = (ValueError, TypeError, IndexError, KeyError, AttributeError, ZeroDivisionError)
+
+
+def _raises(nd, env, funcs):
+    """the Python exception the evaluation of this statement's value raises under `env`, None if it evaluates (or is not closed)"""
+    a = nd.ast
+    v = None
+    if nd.kind == 'return':
+        v = a.value
+    elif isinstance(a, (ast.Assign, ast.AugAssign)):
+        v = a.value
+    elif isinstance(a, ast.Expr):
+        v = None
+    if v is None:
+        return None
+    try:
+        A.ev(v, env, funcs)
+    except A.NotClosed:
+        return None
+    except _PY_EXC as e:
+        return e
+    except Exception:
+        return None
+    return None
 
 
 def _decide(e, env, funcs):
@@ -271,14 +358,21 @@ def run_function(cfg, fn, args, funcs=None, env=None):
             if nd.ast.value is None:
                 outs.append(None)
             else:
-                v = A.ev(nd.ast.value, e, funcs)
+                try:
+                    v = A.ev(nd.ast.value, e, funcs)
+                except _PY_EXC:
+                    return      # the exception edge is taken (explore, concrete_exceptions)
                 outs.append(tuple(v) if isinstance(v, list) else v)
         if nd is cfg.exit and not any(l != 'exc' for p in cfg.nodes for s_, l in p.succ if s_ is nd and p.kind == 'return'):
             pass
 
     def unk(nd, e):
         raise NotClosedTest(ast.unparse(nd.ast) if nd.ast is not None else '?')
-    visited = explore(cfg, env0, funcs=funcs, on_node=on_node, on_unknown=unk)
+    escaped = []
+    visited = explore(cfg, env0, funcs=funcs, on_node=on_node, on_unknown=unk, concrete_exceptions=True,
+                      on_exception=lambda nd, e, exc: escaped.append(exc))
+    if escaped:
+        outs.append(('raises', type(escaped[0]).__name__))
     # falling off the end returns None
     fell = any(cfg.nodes[i].kind != 'return' and any(s_ is cfg.exit and l != 'exc' for s_, l in cfg.nodes[i].succ) for i in visited)
     if fell:
